@@ -70,15 +70,91 @@ func init() {
 }
 
 func main() {
+	lv := launcherVariant()
+	if strings.Contains(lv, "pre-stdout") {
+		os.Stdout.WriteString("c20: starting up\n") // a program whose init / main prints before Run() takes over
+	}
 	if daemon.Run() {
+		if !handlerRan.Load() {
+			launcherAfterRun(lv) // this process was the launcher: what a program may still do before it exits
+		}
 		os.Exit(0)
 	}
 	hk.Main("C20", runC20)
 }
 
+var handlerRan atomic.Bool
+
+// launcherVariant: what the launcher PROGRAM does around Run() in the current scenario (4th line of <base>/current);
+// empty in the top-level harness process (the base directory is not in its initial environment).
+func launcherVariant() string {
+	base := os.Getenv(envBase)
+	if base == "" {
+		return ""
+	}
+	b, err := os.ReadFile(filepath.Join(base, "current"))
+	if err != nil {
+		return ""
+	}
+	f := strings.Split(strings.TrimSpace(string(b)), "\n")
+	if len(f) >= 4 {
+		return f[3]
+	}
+	return ""
+}
+
+// launcherAfterRun: Run() has returned true in the launcher (the daemon called Done() or exited); a real program
+// may print a farewell line, flush logs, or do clean-up work before it exits. Variants are joined with "+".
+func launcherAfterRun(lv string) {
+	for _, v := range strings.Split(lv, "+") {
+		switch {
+		case v == "post-stdout-short":
+			os.Stdout.WriteString("bye\n")
+		case v == "post-stdout-long":
+			os.Stdout.WriteString(strings.Repeat("launcher done. ", 300) + "\n")
+		case v == "post-stdout-4":
+			os.Stdout.WriteString("done")
+		case v == "post-stdout-bin":
+			os.Stdout.Write([]byte{0xff, 0xfe, 0x00, 0x01, 0x7f, 0x80, 0x00, 0x00})
+		case v == "post-stderr":
+			os.Stderr.WriteString("c20 launcher: done\n")
+		case strings.HasPrefix(v, "linger-"):
+			if d, err := time.ParseDuration(strings.TrimPrefix(v, "linger-")); err == nil {
+				time.Sleep(d)
+			}
+		}
+	}
+}
+
+func variantToken(v, lv string) string {
+	if lv == "" {
+		return v
+	}
+	return v + "/" + lv
+}
+
+func orNone(s string) string {
+	if s == "" {
+		return "plain"
+	}
+	return s
+}
+
+func lingerOf(lv string) time.Duration {
+	for _, v := range strings.Split(lv, "+") {
+		if strings.HasPrefix(v, "linger-") {
+			if d, err := time.ParseDuration(strings.TrimPrefix(v, "linger-")); err == nil {
+				return d
+			}
+		}
+	}
+	return 0
+}
+
 // c20Daemon is the registered handler: marker, optional stderr line, optional delay, Done(), optional late
 // stderr line, late marker, live on.
 func c20Daemon(self string) {
+	handlerRan.Store(true)
 	// the scenario (directory, delay, stderr variant) is read from <base>/current, not from the environment: the
 	// caller's environment at the time of Launch is not part of the property
 	dir, delayStr, variant := "", "", ""
@@ -424,7 +500,9 @@ func runC20(e *hk.Env) error {
 	conc := []int{1, 4}
 	rounds := 1
 	stress, seqRounds := 4, 2
+	lingers := []int{500, 3500} // ms the launcher stays around after Run() returned; timers longer than the longest are out of reach
 	if e.Thorough() {
+		lingers = []int{500, 3500, 6500, 12000}
 		stress, seqRounds = 20, 10
 		delays = []int{0, 5, 20, 50, 100, 300}
 		pauses = []int{0, 50, 200, 500}
@@ -444,6 +522,7 @@ func runC20(e *hk.Env) error {
 	os.Setenv(envBase, base)
 	self := os.Getpid()
 	cases, viols, groups, leakedTotal, notSurvived, hookMissing, timeouts, expectedFailures := 0, 0, 0, 0, 0, 0, 0, 0
+	observed := map[string]string{}
 	hookDetail := ""
 	classHist := map[string]int{}
 	ppidHist := map[string]int{}
@@ -453,14 +532,18 @@ func runC20(e *hk.Env) error {
 	type scenario struct {
 		delay, pause, n int
 		variant         string
-		direct          bool // a step of a sequence: Launch is called on the sweep's own goroutine
+		direct          bool   // a step of a sequence: Launch is called on the sweep's own goroutine
+		lv              string // launcher-program variant: what the launcher does around Run()
 	}
+	// observed only (what the code does is recorded, not judged): the launcher program prints to stderr after Run(),
+	// or to stdout BEFORE Run() — the property says nothing about output of the launcher program itself
+	observeOnly := func(lv string) bool { return strings.Contains(lv, "post-stderr") || strings.Contains(lv, "pre-stdout") }
 	expectFail := func(v string) bool { return v == "exit" || v == "panic" }
 	var scenarios []scenario
 	for _, pause := range pauses {
 		for _, delay := range delays {
 			for _, n := range conc {
-				scenarios = append(scenarios, scenario{delay, pause, n, "none", false})
+				scenarios = append(scenarios, scenario{delay, pause, n, "none", false, ""})
 			}
 		}
 	}
@@ -468,27 +551,39 @@ func runC20(e *hk.Env) error {
 		// slow daemons: a launcher that stops waiting after a grace period returns before Done(). Quick reaches 1 s,
 		// thorough 4.5 s; a grace timer longer than the longest delay tested is only caught by the extracted action list.
 		for _, n := range conc[:min(2, len(conc))] {
-			scenarios = append(scenarios, scenario{1000, 0, n, "none", false})
+			scenarios = append(scenarios, scenario{1000, 0, n, "none", false, ""})
 			if e.Thorough() {
-				scenarios = append(scenarios, scenario{4500, 0, n, "none", false})
+				scenarios = append(scenarios, scenario{4500, 0, n, "none", false, ""})
 			}
 		}
 		// handlers that scrub their environment before Done(), and daemons that die before Done()
 		for _, v := range []string{"unsetenv", "clearenv", "exit", "panic"} {
 			for _, n := range conc[:min(2, len(conc))] {
-				scenarios = append(scenarios, scenario{delays[0], pauses[0], n, v, false})
+				scenarios = append(scenarios, scenario{delays[0], pauses[0], n, v, false, ""})
 			}
 		}
 		// sequences in one goroutine: launches that fail (daemon dies before Done()) followed by normal ones
 		seq := []string{"exit", "none", "panic", "none", "none", "exit", "exit", "none", "unsetenv", "panic", "after", "none"}
 		for k := 0; k < seqRounds; k++ {
 			for _, v := range seq {
-				scenarios = append(scenarios, scenario{delays[0], pauses[0], 1, v, true})
+				scenarios = append(scenarios, scenario{delays[0], pauses[0], 1, v, true, ""})
 			}
 		}
+		// the launcher PROGRAM around Run(): prints after Run() returned (the pid must still be the daemon's), lingers
+		// before it exits (clean-up work: Launch returns when the launcher is gone, nil + the right pid, daemon alive)
+		for _, v := range []string{"post-stdout-short", "post-stdout-long", "post-stdout-4", "post-stdout-bin", "post-stderr", "pre-stdout"} {
+			scenarios = append(scenarios, scenario{delays[0], pauses[0], 1, "none", false, v})
+		}
+		scenarios = append(scenarios, scenario{delays[0], pauses[0], 4, "none", false, "post-stdout-short"})
+		for _, d := range lingers {
+			scenarios = append(scenarios, scenario{delays[0], pauses[0], 1, "none", false, fmt.Sprintf("linger-%dms", d)})
+		}
+		// a daemon slow to reach Done() combined with a launcher slow to leave
+		scenarios = append(scenarios, scenario{300, 0, 4, "none", false, fmt.Sprintf("linger-%dms", lingers[0])})
+		scenarios = append(scenarios, scenario{300, 0, 1, "none", false, fmt.Sprintf("linger-%dms+post-stdout-short", lingers[len(lingers)-1])})
 		// many overlapping launches under two names: state shared between Launch calls shows as a wrong handler
 		for k := 0; k < stress; k++ {
-			scenarios = append(scenarios, scenario{0, 0, 8, "none", false})
+			scenarios = append(scenarios, scenario{0, 0, 8, "none", false, ""})
 		}
 	}
 	// the stderr variants on the two extreme timings (thorough: on every timing)
@@ -497,15 +592,15 @@ func runC20(e *hk.Env) error {
 			for _, pause := range pauses {
 				for _, delay := range delays {
 					for _, n := range conc {
-						scenarios = append(scenarios, scenario{delay, pause, n, v, false})
+						scenarios = append(scenarios, scenario{delay, pause, n, v, false, ""})
 					}
 				}
 			}
 			continue
 		}
 		for _, n := range conc {
-			scenarios = append(scenarios, scenario{delays[0], pauses[0], n, v, false})
-			scenarios = append(scenarios, scenario{delays[len(delays)/2], pauses[len(pauses)-1], n, v, false})
+			scenarios = append(scenarios, scenario{delays[0], pauses[0], n, v, false, ""})
+			scenarios = append(scenarios, scenario{delays[len(delays)/2], pauses[len(pauses)-1], n, v, false, ""})
 		}
 	}
 
@@ -561,6 +656,19 @@ func runC20(e *hk.Env) error {
 				}
 			}
 		}
+		if observeOnly(g.sc.lv) {
+			for i, o := range g.obs {
+				errText := ""
+				if o.err != nil {
+					errText = o.err.Error()
+				}
+				what := fmt.Sprintf("class=%s pid_matches=%s err=%q", o.class, b01(o.pidMatches), errText)
+				observed[g.sc.lv] = what
+				e.Case("L", g.sc.lv, strconv.Itoa(i), o.class, b01(o.pidMatches), strconv.Itoa(o.pid), hk.Hxs(errText))
+			}
+			killAndWait(append(groupPids(g.dir), childrenOf(self)...))
+			return
+		}
 		if expectFail(g.sc.variant) {
 			// the daemon died before Done(): Launch must say so (an error, pid 0) and nothing of it may be running
 			left := groupPids(g.dir)
@@ -603,12 +711,12 @@ func runC20(e *hk.Env) error {
 			}
 			e.Case("E", strconv.Itoa(g.sc.delay), strconv.Itoa(g.sc.pause), strconv.Itoa(g.sc.n), strconv.Itoa(i), o.class,
 				b01(o.pidMatches), b01(o.marker), b01(o.alive), b01(o.reparented), b01(g.gone), b01(o.doneAtRet), b01(o.rightH),
-				b01(o.doneNil), b01(o.survived), g.sc.variant, hk.Hxs(errText))
+				b01(o.doneNil), b01(o.survived), variantToken(g.sc.variant, g.sc.lv), hk.Hxs(errText))
 			good := o.err == nil && o.pidMatches && o.marker && o.alive && o.reparented && g.gone && o.doneAtRet && o.rightH && o.doneNil && o.survived
 			if !good {
 				viols++
 				e.Case("VIOL", fmt.Sprintf("delay=%dms", g.sc.delay), fmt.Sprintf("pause=%dms", g.sc.pause), fmt.Sprintf("n=%d", g.sc.n),
-					"daemon_stderr="+g.sc.variant, fmt.Sprintf("i=%d", i), fmt.Sprintf("err=%q", errText), fmt.Sprintf("pid=%d", o.pid),
+					"daemon_stderr="+g.sc.variant, "launcher_program="+orNone(g.sc.lv), fmt.Sprintf("i=%d", i), fmt.Sprintf("err=%q", errText), fmt.Sprintf("pid=%d", o.pid),
 					"pid_matches="+b01(o.pidMatches), "marker_at_return="+b01(o.marker), "alive_at_return="+b01(o.alive),
 					fmt.Sprintf("ppid=%d", o.ppid), "launcher_gone="+b01(g.gone), "done_entered_at_return="+b01(o.doneAtRet),
 					"asked="+o.name, "runs="+o.ranHandler, "right_handler_and_distinct_pid="+b01(o.rightH), "done_returned_nil="+b01(o.doneNil),
@@ -650,7 +758,7 @@ func runC20(e *hk.Env) error {
 			g := &group{sc: sc, round: round, dir: filepath.Join(base, fmt.Sprintf("g%d", groups))}
 			os.MkdirAll(g.dir, 0o755)
 			tmp := filepath.Join(base, ".current.tmp")
-			os.WriteFile(tmp, []byte(fmt.Sprintf("%s\n%dms\n%s\n", g.dir, sc.delay, sc.variant)), 0o644)
+			os.WriteFile(tmp, []byte(fmt.Sprintf("%s\n%dms\n%s\n%s\n", g.dir, sc.delay, sc.variant, sc.lv)), 0o644)
 			os.Rename(tmp, filepath.Join(base, "current"))
 			if sc.pause > 0 {
 				os.Setenv(envPause, fmt.Sprintf("%dms", sc.pause))
@@ -658,7 +766,7 @@ func runC20(e *hk.Env) error {
 				os.Unsetenv(envPause)
 			}
 			g.obs = make([]launchObs, sc.n)
-			limit := time.Duration(sc.delay+sc.pause)*time.Millisecond + 3*time.Second
+			limit := time.Duration(sc.delay+sc.pause)*time.Millisecond + lingerOf(sc.lv) + 3*time.Second
 			var wg sync.WaitGroup
 			if sc.direct {
 				name := handlerA
@@ -714,7 +822,7 @@ func runC20(e *hk.Env) error {
 					nFailed++
 				}
 			}
-			if nFailed > 0 && !expectFail(sc.variant) {
+			if nFailed > 0 && !expectFail(sc.variant) && !observeOnly(sc.lv) {
 				// a failed Launch's daemon may still be on its way to the marker: give it a moment before counting
 				time.Sleep(time.Duration(sc.delay+150) * time.Millisecond)
 				leakedMarkers := 0
@@ -764,6 +872,9 @@ func runC20(e *hk.Env) error {
 	e.Stats["launch_timeouts"] = timeouts
 	e.Stats["hook_missing"] = hookMissing
 	e.Stats["expected_failures_checked"] = expectedFailures
+	e.Stats["launcher_linger_ms_explored"] = lingers
+	e.Stats["launcher_program_variants"] = "post-stdout-short/long/4/bin, linger, linger+post-stdout (judged); post-stderr, pre-stdout (observed only)"
+	e.Stats["observed_only"] = observed
 	if hookMissing > 0 {
 		return fmt.Errorf("hook missing: forced schedule not achieved (%s, %d launches): the verifPause(\"launch.afterStart\") call right after cmd.Start() in daemon.launch is gone or no longer pauses", hookDetail, hookMissing)
 	}
